@@ -33,8 +33,10 @@ InCtx(c) == CASE ctxt = "alone" -> c
               [] ctxt = "arg"   -> Call(Id(<<"w">>, "rap"), <<one, c>>)
               [] ctxt = "list"  -> Cmp("in", a, Lst(<<c, one>>))
               [] ctxt = "lam"   -> Coll(Id0("cs"), "any", Lam(Id0("x"), Bool("and", c, BoolL("true"))))
+              \* inside the argument list of a VALID built-in call (a check made on the finished tree must descend)
+              [] ctxt = "inbuiltin" -> Cmp("eq", Call(Id0("concat"), <<Call(Id0("tolower"), <<c>>), StrL(<<120>>)>>), StrL(<<121>>))
 
-Init == /\ f \in Names /\ n \in 0..5 /\ style \in Styles /\ ctxt \in {"alone", "cmp", "arg", "list", "lam"}
+Init == /\ f \in Names /\ n \in 0..5 /\ style \in Styles /\ ctxt \in {"alone", "cmp", "arg", "list", "lam", "inbuiltin"}
         /\ (style = "named" => n >= 1)
 Next == UNCHANGED <<f, n, style, ctxt>>
 
@@ -42,7 +44,10 @@ Expected == ParseTokens(Pr(InCtx(TheCall), "min"))
 \* the table itself decides, independently of the parser machine (model-level cross-check)
 TableSays == LET c == CallCheck(f, n) IN IF c[1] = "ok" THEN <<"ok", InCtx(TheCall)>> ELSE c
 MachineAgreesWithTable == Expected = TableSays
+\* optional whitespace wherever the grammar allows it does not change the outcome
+BwsSameOutcome == ParseTokens(Pr(InCtx(TheCall), "bws")) = Expected
 
 Export == PrintT(ToJson([k |-> "case", fn |-> f, n |-> n, style |-> style, ctxt |-> ctxt,
-                         text |-> Spell(Pr(InCtx(TheCall), "min"), " "), expected |-> Expected]))
+                         text |-> Spell(Pr(InCtx(TheCall), "min"), " "), bws |-> Spell(Pr(InCtx(TheCall), "bws"), " "),
+                         expected |-> Expected]))
 =============================================================================
